@@ -23,6 +23,9 @@ type gateSvc struct {
 	// readFirst: a held request has already read the value it will answer with (the reply is
 	// delayed, not the read)
 	readFirst atomic.Bool
+	// stubborn: a held request is answered when the gate opens even if its context has ended
+	// meanwhile (a reply that was already on its way)
+	stubborn atomic.Bool
 	gate      chan struct{}
 	waiting atomic.Int32
 	// conditional (poll) requests waiting at the gate at the same time: one poll asks for one
@@ -42,9 +45,16 @@ func (g *gateSvc) value(name string) *api.SecretValue {
 }
 
 func (g *gateSvc) wait(ctx context.Context) error {
+	if !g.hold.Load() && ctx.Err() != nil {
+		return ctx.Err() // a request made with a context that has ended fails at once, as with a real client
+	}
 	if g.hold.Load() {
 		g.waiting.Add(1)
 		defer g.waiting.Add(-1)
+		if g.stubborn.Load() {
+			<-g.gate
+			return nil
+		}
 		select {
 		case <-g.gate:
 		case <-ctx.Done():
@@ -428,6 +438,7 @@ func traceConcStore(t *testing.T, o opts) {
 			}
 			g.mu.Unlock()
 			g.hold.Store(true)
+			g.stubborn.Store(true) // the starter's first reply arrives although its context has ended by then
 			starterDone := make(chan struct{})
 			go func() {
 				defer close(starterDone)
@@ -441,6 +452,7 @@ func traceConcStore(t *testing.T, o opts) {
 			joined := make(chan error, 1)
 			go func() { joined <- st.Refresh(context.Background()) }()
 			time.Sleep(40 * time.Millisecond) // the starter's context has ended by now
+			g.stubborn.Store(false)
 			g.hold.Store(false)
 			close(g.gate)
 			<-starterDone
